@@ -109,6 +109,11 @@ func (atxn *AllocTxn) PostAbort() {
 	}
 }
 
+// Modified reports whether the transaction has written or allocated anything.
+func (atxn *AllocTxn) Modified() bool {
+	return atxn.Op.NDirty() > 0 || len(atxn.allocInums) > 0 || len(atxn.allocBnums) > 0
+}
+
 func (atxn *AllocTxn) AssertValidBlock(blkno common.Bnum) {
 	if blkno > 0 && (blkno < atxn.Super.DataStart() ||
 		blkno >= atxn.Super.MaxBnum()) {
